@@ -765,6 +765,12 @@ class ParallelProcess(Process):
             raise RuntimeError(
                 'Trying to retrieve command result, but no command is '
                 'pending.')
+        if self._ended:
+            # The child process is gone. Return the result that
+            # ``end()`` collected, if any.
+            result = self._command_result
+            self._command_result = None
+            return result
         self._pending_command = None
         return self.parent.recv()
 
@@ -838,9 +844,11 @@ class ParallelProcess(Process):
         if self._ended:
             return
         if self._pending_command:
-            # Discard the result of a command that is still in flight,
-            # for example an update that will never be applied.
-            self.get_command_result()
+            # Collect the result of a command that is still in flight.
+            # It is kept for a caller that still expects it: the engine
+            # collects an update that is due in the same batch in which
+            # its process is deleted.
+            self._command_result = self.get_command_result()
         self.send_command('end')
         if self.profile:
             stats = pstats.Stats()
